@@ -160,7 +160,7 @@ def decorate(rnd, rules):
             if rnd.random() < 0.4:
                 d['kwparams'] = {'k': rnd.choice(['v', 3, 'a b'])}
         if rnd.random() < 0.12:
-            d['decorators'] = (rnd.choice(['nomemo', 'name']),)
+            d['decorators'] = rnd.choice([('nomemo',), ('name',), ('nostak',), ('nomemo', 'nostak'), ('name', 'nomemo'), ('nostak', 'name', 'nomemo')])
     if len(rd) >= 2 and rnd.random() < 0.2:
         rd.insert(len(rd) - 1, dict(name='bs', exp=('seq', (('tok', 'b'), ('opt', ('tok', ','))))))
         rd[-1]['base'] = 'bs'
